@@ -397,8 +397,148 @@ UF_POWI = z3.Function("f64_powi", F64, z3.BitVecSort(32), F64)
 UF_POWF = z3.Function("f64_powf", F64, F64, F64)
 
 
+def m_panic_fmt(ex, st, callee, args):
+    return [(None, Panic("explicit panic (%s)" % callee.split("::")[-1]))]
+
+
+def m_abs_string(ex, st, callee, args):
+    """abstract String: only its provenance is kept (kind-level reasoning; contents are not modelled here)"""
+    return [(None, Opaque("String", (callee.split("::")[-1], tuple(repr(a)[:40] for a in args))))]
+
+
+def m_str_repeat(ex, st, callee, args):
+    return [(None, Opaque("String", ("repeat",)))]
+
+
+# ------------------------------------------------------------------ Vec<T> / [T] with concrete length, str literals
+def _vec_at(ex, st, ref):
+    if not isinstance(ref, Ref):
+        raise Inconclusive("Vec method on non-reference %r" % (ref,))
+    v = ex.read(st, ref.cell, ref.path)
+    n = 0
+    while isinstance(v, Ref):          # &mut &mut Vec ..
+        ref = v
+        v = ex.read(st, ref.cell, ref.path)
+        n += 1
+        if n > 4:
+            raise Inconclusive("reference chain")
+    if not (isinstance(v, Adt) and v.ty in ("Vec", "[]")):
+        raise Inconclusive("expected a Vec/slice, got %r" % (v,))
+    return ref, v
+
+
+def m_vec_pop(ex, st, callee, args):
+    ref, v = _vec_at(ex, st, args[0])
+    if not v.fields:
+        return [(None, NONE)]
+    ex.write(st, ref.cell, ref.path, Adt(v.ty, None, v.fields[:-1]))
+    return [(None, some(v.fields[-1]))]
+
+
+def m_vec_push(ex, st, callee, args):
+    ref, v = _vec_at(ex, st, args[0])
+    ex.write(st, ref.cell, ref.path, Adt(v.ty, None, v.fields + (args[1],)))
+    return [(None, UNIT)]
+
+
+def m_vec_clear(ex, st, callee, args):
+    ref, v = _vec_at(ex, st, args[0])
+    ex.write(st, ref.cell, ref.path, Adt(v.ty, None, ()))
+    return [(None, UNIT)]
+
+
+def m_vec_len(ex, st, callee, args):
+    ref, v = _vec_at(ex, st, args[0])
+    return [(None, bv("usize", len(v.fields)))]
+
+
+def m_vec_is_empty(ex, st, callee, args):
+    ref, v = _vec_at(ex, st, args[0])
+    return [(None, boolv(len(v.fields) == 0))]
+
+
+def m_slice_ref(ex, st, callee, args):
+    """Deref/DerefMut/as_slice of a Vec: the slice is the same element sequence -> same reference"""
+    ref, v = _vec_at(ex, st, args[0])
+    return [(None, ref)]
+
+
+def _concrete_index(ex, st, v):
+    v = ex.deref(st, v)
+    c = z3.simplify(v.e)
+    if not z3.is_bv_value(c):
+        raise Inconclusive("symbolic slice index")
+    return c.as_long()
+
+
+def m_slice_get(ex, st, callee, args):
+    ref, v = _vec_at(ex, st, args[0])
+    i = _concrete_index(ex, st, args[1])
+    if i < len(v.fields):
+        return [(None, some(Ref(ref.cell, ref.path + (i,))))]
+    return [(None, NONE)]
+
+
+def m_slice_first(ex, st, callee, args):
+    ref, v = _vec_at(ex, st, args[0])
+    if v.fields:
+        return [(None, some(Ref(ref.cell, ref.path + (0,))))]
+    return [(None, NONE)]
+
+
+def m_slice_last(ex, st, callee, args):
+    ref, v = _vec_at(ex, st, args[0])
+    if v.fields:
+        return [(None, some(Ref(ref.cell, ref.path + (len(v.fields) - 1,))))]
+    return [(None, NONE)]
+
+
+def _strlit(ex, st, v):
+    v = ex.deref(st, v)
+    if isinstance(v, Opaque) and v.tag == "strlit":
+        return v
+    return None
+
+
+def m_str_view(ex, st, callee, args):
+    """String::as_str / Deref on a *concrete* string keeps the literal; abstract strings stay abstract"""
+    lit = _strlit(ex, st, args[0])
+    if lit is not None:
+        return [(None, lit)]
+    return m_abs_string(ex, st, callee, args)
+
+
+def m_str_eq(ex, st, callee, args):
+    a, b = _strlit(ex, st, args[0]), _strlit(ex, st, args[1])
+    if a is None or b is None:
+        raise Inconclusive("comparison of abstract strings")
+    r = (a.data == b.data)
+    if callee.endswith("::ne"):
+        r = not r
+    return [(None, boolv(r))]
+
+
 def base_models():
     m = Models()
+    m.add(r"^Vec::<.*>::pop$", m_vec_pop)
+    m.add(r"^Vec::<.*>::push$", m_vec_push)
+    m.add(r"^Vec::<.*>::clear$", m_vec_clear)
+    m.add(r"^Vec::<.*>::len$|^core::slice::<impl \[.*\]>::len$", m_vec_len)
+    m.add(r"^Vec::<.*>::is_empty$|^core::slice::<impl \[.*\]>::is_empty$", m_vec_is_empty)
+    m.add(r"^<Vec<.*> as (Deref|DerefMut)>::deref(_mut)?$|^Vec::<.*>::as_(mut_)?slice$", m_slice_ref)
+    m.add(r"^core::slice::<impl \[.*\]>::get(_mut)?::<usize>$", m_slice_get)
+    m.add(r"^core::slice::<impl \[.*\]>::first(_mut)?$", m_slice_first)
+    m.add(r"^core::slice::<impl \[.*\]>::last(_mut)?$", m_slice_last)
+    m.add(r"^<str as PartialEq>::(eq|ne)$", m_str_eq)
+    m.add(r"^String::as_str$|^<String as Deref>::deref$", m_str_view)
+    m.add(r"^std::rt::panic_fmt$|^core::panicking::panic(_fmt|_display|_explicit)?(::<.*>)?$|^std::rt::begin_panic", m_panic_fmt)
+    m.add(r"^<(String|str) as ToOwned>::to_owned$", m_abs_string)
+    m.add(r"^<.* as ToString>::to_string$", m_abs_string)
+    m.add(r"^<String as Add<&str>>::add$", m_abs_string)
+    m.add(r"^<String as Deref>::deref$", m_abs_string)
+    m.add(r"^<String as Clone>::clone$", m_abs_string)
+    m.add(r"^String::as_str$", m_abs_string)
+    m.add(r"^((std|alloc|core)::)?str::<impl str>::repeat$", m_str_repeat)
     m.add(_arith_re.pattern, m_arith)
     m.add(_neg_re.pattern, m_neg)
     m.add(_cmp_re.pattern, m_cmp)
